@@ -112,6 +112,7 @@ type Worker struct {
 	initExec     *Exec
 	fns          map[string]int
 	id           int
+	ifSites      map[*ssa.If]*ifSite
 }
 
 func (w *Worker) push(p []Decision) {
@@ -263,9 +264,13 @@ func (r *Run) Explore() {
 	}
 	workers := make([]*Worker, n)
 	for i := 0; i < n; i++ {
-		w := &Worker{run: r, cfg: &r.Cfg, tb: NewTB(), fns: map[string]int{}, id: i}
+		w := &Worker{run: r, cfg: &r.Cfg, tb: NewTB(), fns: map[string]int{}, id: i, ifSites: map[*ssa.If]*ifSite{}}
 		w.stats.Stops = map[string]int{}
-		s, err := NewSolver("z3", r.Cfg.QueryTimeoutMs, &w.sstats)
+		kind := os.Getenv("GOSYM_SOLVER")
+		if kind == "" {
+			kind = "z3"
+		}
+		s, err := NewSolver(kind, r.Cfg.QueryTimeoutMs, &w.sstats)
 		if err != nil {
 			panic(err)
 		}
